@@ -21,6 +21,7 @@ import (
 type C13Req struct {
 	Kind string `json:"kind"` // call listtools listprompts listres
 	Lat  int    `json:"lat"`
+	As   string `json:"as,omitempty"` // when set: this one request carries a token of another class (what the context functions derive is the request's, not the session's)
 }
 
 type C13Client struct {
@@ -43,7 +44,11 @@ func genC13(t *rapid.T) C13Case {
 		cl := C13Client{Class: rapid.SampledFrom([]string{"a", "b", "c"}).Draw(t, "class")}
 		k := rapid.IntRange(1, 6).Draw(t, "nreqs")
 		for j := 0; j < k; j++ {
-			cl.Reqs = append(cl.Reqs, C13Req{Kind: rapid.SampledFrom([]string{"call", "call", "listtools", "listtools", "listprompts", "listres"}).Draw(t, "kind"), Lat: rapid.IntRange(0, 4).Draw(t, "lat")})
+			rq := C13Req{Kind: rapid.SampledFrom([]string{"call", "call", "listtools", "listtools", "listprompts", "listres", "listres"}).Draw(t, "kind"), Lat: rapid.IntRange(0, 4).Draw(t, "lat")}
+			if rapid.IntRange(0, 3).Draw(t, "as") == 0 {
+				rq.As = rapid.SampledFrom([]string{"a", "b", "c"}).Draw(t, "asclass")
+			}
+			cl.Reqs = append(cl.Reqs, rq)
 		}
 		c.Clients = append(c.Clients, cl)
 	}
@@ -260,7 +265,11 @@ func execC13(c C13Case) *Failure {
 				default:
 					body = fmt.Sprintf(`{"jsonrpc":"2.0","id":%s,"method":"resources/list"}`, id)
 				}
-				ex := conns[i].Send([]byte(body), id, Bound()*2)
+				var hdr map[string]string
+				if rq.As != "" {
+					hdr = map[string]string{"X-Token": fmt.Sprintf("%s-%d", rq.As, i)}
+				}
+				ex := conns[i].SendWith([]byte(body), id, Bound()*2, hdr)
 				cr := cres{req: rq}
 				if len(ex.Frames) != 1 {
 					cr.err = fmt.Sprintf("frames=%d status=%d", len(ex.Frames), ex.Status)
@@ -302,8 +311,12 @@ func execC13(c C13Case) *Failure {
 		wantOrder += fmt.Sprint(i)
 	}
 	for i, cl := range c.Clients {
-		tok := fmt.Sprintf("%s-%d", cl.Class, i)
 		for j, cr := range results[i] {
+			cls := cl.Class
+			if cr.req.As != "" {
+				cls = cr.req.As
+			}
+			tok := fmt.Sprintf("%s-%d", cls, i)
 			where := fmt.Sprintf("%s client %d (token %s, session %q) request %d %s, %d clients, max %d requests inside the server", c.Mode, i, tok, conns[i].SessionID, j, cr.req.Kind, len(c.Clients), maxInServer)
 			if cr.err != "" {
 				return TimingFailf("C13/no-answer", "%s: %s", where, cr.err)
@@ -341,7 +354,7 @@ func execC13(c C13Case) *Failure {
 			default:
 				var want []string
 				for _, n := range names {
-					if admits(cl.Class, n) {
+					if admits(cls, n) {
 						if cr.req.Kind == "listres" {
 							want = append(want, "file:///"+n)
 						} else {
